@@ -439,6 +439,30 @@ def rule_shapes(chk, fb):
                 if any(a[0] == "call" and "Enumerate" in a[1] and a[1].endswith("::next") for a in ca) and ("field", "tuple", "0") in ca and ("field", "tuple", "1") not in ca:
                     ok_ctr = True
                 ok_iv = True
+        # padding: a segment is padded up to the cipher block only when it is not a multiple of it already - the padding
+        # is computed from the remainder and happens under a test of that very remainder (a full extra block makes the last
+        # segment of an exact multiple of 4096 overflow the segment buffer)
+        cfg_p = CFG(b)
+        rems = {s_["lhs"]["l"] for bl in b["blocks"] for s_ in bl["s"] if s_["k"] == "assign" and s_["rv"]["k"] == "bin" and s_["rv"]["op"] == "Rem" and not s_["lhs"].get("pr")}
+        rem_calls = {bi for bi, t in fl.calls() if "ops::Rem" in t.get("fn", "") or t.get("fn", "").endswith("::rem")}
+
+        def from_rem(op):
+            return ("p" in op and any(_derives_from_local(fl, b, op, r_) for r_ in rems)) or any(a[0] == "call" and a[2] in rem_calls for a in fl.atoms(op))
+
+        pads = []
+        for bi, t in fl.calls():
+            if t.get("fn", "").split("::")[-1] in ("buffer_alloc", "resize", "extend", "extend_from_slice", "push") and any(from_rem(a) for a in t["args"]):
+                pads.append((bi, t))
+        okp = bool(pads)
+        for bi, t in pads:
+            guarded = False
+            for x in cfg_p.control_deps_transitive(bi):
+                sw = b["blocks"][x]["t"]
+                if sw["k"] == "switch" and from_rem(sw["op"]):
+                    guarded = True
+            okp = okp and guarded
+        chk.ob(rd, "segment:pad-on-remainder", okp, where="%s:%s" % (b["file"], pads[0][1].get("ln") if pads else b.get("line")),
+               detail="%d padding site(s) computed from the segment's remainder; each guarded by a test of that remainder: %s" % (len(pads), okp))
         chk.ob(rd, "segment:iv-from-index", ok_iv and ok_ctr, where=fb.loc(cp), detail="segment IV derives from LE32(segment index), index starts at 0 and advances by 1: %s" % (ok_iv and ok_ctr))
         # length prefix
         okp = False
@@ -510,6 +534,34 @@ def rule_password_passthrough(chk, fb, rid, targets, floor):
                 n += 1
 
 
+def rule_digest_whole_input(chk, fb, rid, floor=2):
+    """The chains of C14.d / C15.e say what is concatenated; this says that all of it is digested: the low-level hash and
+    HMAC helpers hand every byte of every input buffer to the digest - no partial slice, clamp or cap on the way."""
+    r = chk.rule(
+        rid,
+        "every input byte is digested: in the hash / HMAC helpers of the crypt module nothing between the input buffers and the digest's update takes a part of them (no range index other than `[..]`, no take / truncate / min-clamped copy into a fixed block)",
+        floor=floor,
+    )
+    for d, b in sorted(fb.mir.items()):
+        if not d.startswith("helper::crypt::") or "::{closure" in d or b["kind"] != "Fn":
+            continue
+        if not any(t.get("orig", t.get("fn", "")).endswith(("Update::update", "Mac::update", "Digest::update")) or t.get("fn", "").split("::")[-1] == "update" for _, t in fb.calls_in(b)):
+            continue
+        cuts = []
+        for bd in [d] + [c for c in fb.mir if c.startswith(d + "::{closure")]:
+            bb = fb.mir[bd]
+            for bi, t in fb.calls_in(bb):
+                f = t.get("fn", "")
+                o = t.get("orig", f)
+                tys = [fb.ty(i) for i in t.get("targs", [])]
+                if (o.endswith("ops::Index::index") or o.endswith("ops::IndexMut::index_mut")) and any("Range" in x and "RangeFull" not in x for x in tys):
+                    cuts.append("range index (line %s)" % t.get("ln"))
+                elif f.split("::")[-1] in ("take", "truncate", "split_at", "first_chunk", "chunks", "min", "copy_from_slice", "get"):
+                    cuts.append("%s (line %s)" % (f.split("::")[-1], t.get("ln")))
+        chk.touch(d)
+        chk.ob(r, d.split("::")[-1], not cuts, where=fb.loc(d), detail="partial-view operations between the inputs and the digest: %s" % (cuts or "none"))
+
+
 def rule_no_plain_success(chk, fb, rid="C14.f", floor=3):
     """A password entry point that reports success has encrypted: no successful return without the encryption step."""
     from props.C13 import _assigns_err
@@ -541,6 +593,17 @@ def rule_no_plain_success(chk, fb, rid="C14.f", floor=3):
         memo[d] = ok
         return ok
 
+    # ... and the encryption entry point itself always encrypts: every successful return of `encrypt` follows the call of
+    # the segment encryptor (the crate function whose loop derives one IV per segment)
+    seg = sorted(f for f, fbody in fb.mir.items() if f.startswith("helper::crypt::") and "::{closure" not in f and any(t.get("fn", "").endswith("create_iv") for _, t in fb.calls_in(fbody)) and CFG(fbody).back_edges())
+    eb = fb.mir.get(ENC)
+    if eb and seg:
+        cfg = CFG(eb)
+        core = {bi for bi, t in fb.calls_in(eb) if t.get("fn") in seg}
+        errb = {x for x in cfg.reach if (eb["blocks"][x]["t"]["k"] == "call" and "from_residual" in eb["blocks"][x]["t"].get("fn", "")) or _assigns_err(eb, x)}
+        ok = bool(core) and not any(e in cfg.reachable(0, avoid=core | errb) for e in cfg.exits)
+        chk.touch(ENC)
+        chk.ob(r, ENC + ":always", ok, where=fb.loc(ENC), detail="every successful return of the encryption entry point follows the segment encryptor %s: %s" % ([x.split("::")[-1] for x in seg], ok))
     for d, b in sorted(fb.mir.items()):
         if b["kind"] not in ("Fn", "AssocFn") or b.get("vis") != "pub" or b["file"].startswith("tests") or "::{closure" in d:
             continue
@@ -575,5 +638,6 @@ def run(chk, fb, tier):
     rule_shapes(chk, fb)
     rule_password_passthrough(chk, fb, "C14.e", ["helper::crypt::encrypt"], 2)
     rule_no_plain_success(chk, fb)
+    rule_digest_whole_input(chk, fb, "C14.g")
     chk.assume("aes/cbc/sha2/hmac crates implement AES-256-CBC, SHA-512 and HMAC; getrandom yields uniformly random bytes")
     chk.note("not decided: that the produced bytes decrypt under an independent implementation (digest/cipher values)")
